@@ -105,8 +105,9 @@ def case_task(task):
         argv = [str(bindir / "dseq")]
         alt_txt = None
         if kind == "date":
-            K = rng.choice(["ymd", "ymd", "ymd", "ywd", "ymcw", "yd"])
-            unit = rng.choice(["d", "d", "w", "mo", "y", "b"]) if K == "ymd" else rng.choice(["d", "d", "w"])
+            K = rng.choice(["ymd", "ymd", "ymd", "ymd", "ymd", "ywd", "ywd", "ymcw", "ymcw", "yd", "yd", "bizda"])
+            # (bounds written as business days step by business days, also when no increment is given)
+            unit = rng.choice(["d", "d", "w", "mo", "y", "b"]) if K == "ymd" else "b" if K == "bizda" else rng.choice(["d", "d", "w"])
             n = rng.choice([1, 1, 2, 3, 7, -1, -2, 0]) if rng.random() < .9 else rng.choice([30, 365, -30, 400])
             o1 = rng.choice(bnd) if rng.random() < .7 else rng.randrange(cal.ORD_MIN, cal.ORD_MAX - 800)
             o1 = min(o1, cal.ORD_MAX - 40000)
@@ -122,10 +123,15 @@ def case_task(task):
                     o1 += 1
                 if o2 < o1 and n > 0:
                     o2 = o1
+                if K == "bizda":
+                    while not dur.is_bday(o2):
+                        o2 -= 1
+                    if not dur.in_range(o2):
+                        continue
             skip = rng.choice(SKIPS) if unit in ("d", "w", "mo", "y") and rng.random() < .4 else None
             from_last = rng.random() < .25 and unit != "b"
             a, b = addsweep.ktext(K, o1)[0], addsweep.ktext(K, o2)[0]
-            default_inc = unit == "d" and n == 1 and rng.random() < .5
+            default_inc = (unit == "d" or K == "bizda") and n == 1 and rng.random() < .5
             argv += [a] + ([] if default_inc else ["%d%s" % (n, unit)]) + [b]
             if skip:
                 argv += ["--skip", skip]
